@@ -4,6 +4,14 @@ and record in its meta.json which checks/rules detect it; also fills `needs_to_m
 import json, os, re, subprocess, sys
 VERIF = os.path.dirname(os.path.dirname(os.path.abspath(__file__)))
 NEEDS = {
+ 'seed-C01-4': 'a striped sequence carrying more look-ahead rows than M-1 (configured once for the widest motif of a set, then fully scored with a narrower one through Pipeline::score / ScoringMatrix::score / Python calculate): wrap-(M-1) extra rows are scored and every position past the first column is mis-mapped; all backends agree with each other',
+ 'seed-C03-4': "AVX2 host, a scanner block of >= 2 rows whose deciding position lies in the block's last row (max_u8_avx2 re-reads row 0 and never reads the last row): Scanner::max returns None or a lower hit, depending on the block size",
+ 'seed-C05-4': 'the single byte U in a DNA text: from_ascii accepts it as T while the vector loops still match against "ACTGN": accepted where it must be rejected, and backends store different codes when the U sits inside a full vector block',
+ 'seed-C07-4': '8-bit scores on the AVX2 arm, >= 2 rows, and a maximum that occurs only in the last row (independently re-invented seed C02-3 / C03-4)',
+ 'seed-C08-4': "Scanner::max with two positions A (first) and B (later), real(B) > real(A) but byte(B) < byte(A): the pruning bound is refreshed with the candidate's own 8-bit score (third independent appearance of the C03-1 mechanism)",
+ 'seed-C10-4': 'WeightMatrix::reverse_complement rebuilds the background through Background::new(complemented).unwrap_or_default(): a background whose f32 frequencies do not sum to exactly 1.0 (from_counts 7/5, 5/1, 10/2) silently becomes uniform',
+ 'seed-C16-4': 'more than 32 sequences and a hold-out of an index in 32..63 (mod 64): BitVec packed in u64 words, unset() clears bit i & 0x1f of the word',
+ 'seed-C18-4': 'StripedScores.__getitem__ with an index below -len (folded back by rem_euclid instead of IndexError) or any negative index on an empty StripedScores (rem_euclid(0) panics)',
  'seed-C02-4': 'a block whose best 8-bit score equals the scaled threshold while holding a real hit: threshold at or below the minimum score on a worst-scoring sequence (t = 0), or a matrix with -inf cells (all bytes and t collapse to 0), or threshold = max score on a consensus occurrence',
  'seed-C04-4': 'two configure / configure_wrap calls on one striped buffer with strictly growing motif widths (e.g. 3 then 8) and no re-striping in between',
  'seed-C06-4': 'AVX2 / dispatched encode_into with len % 32 == 31 (31, 63, 95, ...): one extra 32-byte load/store reads 1 byte past the input and writes 1 symbol past dst',
